@@ -272,3 +272,100 @@ func sortedNames(m map[string]map[string]influxql.DataType) []string {
 	sort.Strings(ks)
 	return ks
 }
+
+// FrozenMapper is a schema service shared by several caller goroutines: it answers from maps it
+// built once and never writes anything afterwards (so any race on it is the library's doing).
+type FrozenMapper struct {
+	schema gen.Schema
+	fields map[string]map[string]influxql.DataType
+	tags   map[string]map[string]struct{}
+	yield  bool
+}
+
+func NewFrozenMapper(s gen.Schema, yieldInCall bool) *FrozenMapper {
+	f := &FrozenMapper{schema: s, fields: map[string]map[string]influxql.DataType{}, tags: map[string]map[string]struct{}{}, yield: yieldInCall}
+	for _, ms := range s.Measurements {
+		ff := map[string]influxql.DataType{}
+		for _, k := range sortedFieldNames(ms.Fields) {
+			ff[k] = dt(ms.Fields[k])
+		}
+		tt := map[string]struct{}{}
+		for _, t := range ms.Tags {
+			tt[t] = struct{}{}
+		}
+		f.fields[ms.Name], f.tags[ms.Name] = ff, tt
+	}
+	return f
+}
+
+func (f *FrozenMapper) FieldDimensions(mm *influxql.Measurement) (map[string]influxql.DataType, map[string]struct{}, error) {
+	if f.yield {
+		verifhook.Yield(verifhook.SiteCallback)
+	}
+	if mm.Regex == nil {
+		if ff, ok := f.fields[mm.Name]; ok {
+			return ff, f.tags[mm.Name], nil
+		}
+		return map[string]influxql.DataType{}, map[string]struct{}{}, nil
+	}
+	fields := map[string]influxql.DataType{}
+	dims := map[string]struct{}{}
+	for _, ms := range Lookup(f.schema, mm) {
+		for _, k := range sortedFieldNames(ms.Fields) {
+			t := ms.Fields[k]
+			if cur, ok := fields[k]; !ok || Rank(t) > Rank(cur.String()) {
+				fields[k] = dt(t)
+			}
+		}
+		for _, t := range ms.Tags {
+			dims[t] = struct{}{}
+		}
+	}
+	return fields, dims, nil
+}
+
+func (f *FrozenMapper) MapType(mm *influxql.Measurement, field string) influxql.DataType {
+	if f.yield {
+		verifhook.Yield(verifhook.SiteCallback)
+	}
+	var typ influxql.DataType
+	for _, ms := range Lookup(f.schema, mm) {
+		if t, ok := ms.Fields[field]; ok {
+			if Rank(t) > Rank(typ.String()) {
+				typ = dt(t)
+			}
+			continue
+		}
+		for _, tg := range ms.Tags {
+			if tg == field && Rank("tag") > Rank(typ.String()) {
+				typ = influxql.Tag
+			}
+		}
+	}
+	return typ
+}
+
+func (f *FrozenMapper) CallType(name string, args []influxql.DataType) (influxql.DataType, error) {
+	return CallTypeOf(name, args), nil
+}
+
+// Intact reports whether the frozen maps still match the schema ("" if so).
+func (f *FrozenMapper) Intact() string {
+	for _, ms := range f.schema.Measurements {
+		if len(f.fields[ms.Name]) != len(ms.Fields) {
+			return fmt.Sprintf("field map of %q has %d entries, schema has %d", ms.Name, len(f.fields[ms.Name]), len(ms.Fields))
+		}
+		if len(f.tags[ms.Name]) != len(uniq(ms.Tags)) {
+			return fmt.Sprintf("tag set of %q has %d entries, schema has %d", ms.Name, len(f.tags[ms.Name]), len(uniq(ms.Tags)))
+		}
+	}
+	return ""
+}
+
+func uniq(xs []string) map[string]bool {
+	m := map[string]bool{}
+	for _, x := range xs {
+		m[x] = true
+	}
+	return m
+}
